@@ -20,7 +20,7 @@ var branchSets = [][]string{
 	{"└", "·", "├", "│──"},
 }
 
-var extSets = [][]string{nil, {".go"}, {".txt", ".md"}, {"Makefile"}, {"go", ".go"}, {""}}
+var extSets = [][]string{nil, {".go"}, {".txt", ".md"}, {"Makefile"}, {"go", ".go"}, {""}, {".tar.gz", ".gz"}, {"Makefile", "file"}, {".GO", ".go", ".txt"}}
 
 // genOp draws an operation. fsOK: allow operations with filesystem effects.
 func genOp(c *Ctx, massive bool) Op {
@@ -762,6 +762,14 @@ func genBytes(c *Ctx) (string, []byte) {
 				lines = append([]string{"    - indented first"}, lines...)
 			case 11:
 				lines[li] = ""
+			}
+			if c.Draw(12) == 0 && len(lines) > 0 {
+				// a long row of multi-byte runes without a bullet; a whitespace-only first line
+				if c.Draw(2) == 0 {
+					lines[c.Draw(len(lines))] = strings.Repeat("あ", 45+c.Draw(60))
+				} else {
+					lines = append([]string{[]string{"  ", "\t", " \t "}[c.Draw(3)]}, lines...)
+				}
 			}
 			if c.Draw(5) == 0 && len(lines) > 0 {
 				// path-like and degenerate names (mkdir / verify / dry-run meet them)
